@@ -95,7 +95,7 @@ func c05Diff(before, after map[string]int) []string {
 }
 
 var c05Endings = []string{"deletion", "release", "read-timeout", "heartbeat-failure", "report-context-not-found"}
-var c05Prefixes = []string{"plain", "rejected-est-after-alloc", "rejected-mod-halfway", "mod-then-end", "idle-then-end", "datapath-write-failure", "two-sessions"}
+var c05Prefixes = []string{"plain", "rejected-est-after-alloc", "rejected-mod-halfway", "mod-then-end", "idle-then-end", "update-pdr-refresh", "update-pdr-new-teid", "remove-pdr", "datapath-write-failure", "two-sessions"}
 
 func TestVerif_C05(t *testing.T) {
 	res := vNewResult("C05")
@@ -275,6 +275,49 @@ func c05Scenario(res *vResult, rng *rand.Rand, up4 bool, ending, prefix string, 
 			res.note("prefix idle-then-end: the Update FAR to BUFF|NOCP was not accepted")
 		}
 	}
+	if prefix == "update-pdr-refresh" || prefix == "update-pdr-new-teid" || prefix == "remove-pdr" {
+		// the uplink PDR got a UP-chosen F-TEID at establishment; the control plane now refreshes it (same F-TEID, by value),
+		// moves it to an F-TEID of its own choice (BESS only), or removes it (BESS only). Whatever the session acquired must
+		// be back when it has ended.
+		if up4 && prefix != "update-pdr-refresh" {
+			return
+		}
+		seq++
+		e := mkEst(0, 1)
+		upPDR := e.PDRs[0]
+		var teid uint32
+		var tip string
+		a.quiesced(func() {
+			if c := a.conn(p.local); c != nil {
+				if ss, ok := c.store.GetSession(ups[0]); ok {
+					for _, x := range ss.pdrs {
+						if x.pdrID == uint32(upPDR.ID) {
+							teid, tip = x.tunnelTEID, vIPStr(x.tunnelIP4Dst)
+						}
+					}
+				}
+			}
+		})
+		if teid == 0 {
+			res.inconclusive("prefix " + prefix + ": the uplink PDR's chosen TEID could not be read")
+			return
+		}
+		upPDR.Choose, upPDR.TEID, upPDR.TunIP = false, teid, tip
+		if len(ues) > 0 {
+			upPDR.UEFlag, upPDR.UEIP = 0x02, vIPStr(ues[0])
+		}
+		mod := vModSpec{Seq: seq, SEID: ups[0], UpPDR: []vPDRSpec{upPDR}}
+		switch prefix {
+		case "update-pdr-new-teid":
+			upPDR.TEID = 0x7E000000 + uint32(idx%1000)
+			mod.UpPDR = []vPDRSpec{upPDR}
+		case "remove-pdr":
+			mod = vModSpec{Seq: seq, SEID: ups[0], RmPDR: []uint16{upPDR.ID}}
+		}
+		if m := c01Request(p, p.modify(mod), seq); m == nil || vDecodeReply(m).Cause != ie.CauseRequestAccepted {
+			res.note("prefix " + prefix + ": the modification was not accepted")
+		}
+	}
 	mid := c05Occupancy(a)
 	res.event("sessions_established", len(ups))
 	// ---- ending
@@ -393,7 +436,13 @@ func c05Scenario(res *vResult, rng *rand.Rand, up4 bool, ending, prefix string, 
 	} else {
 		sn := a.bess.snapshot()
 		if !sn.empty() {
-			res.violate("C05.R1", fmt.Sprintf("bess-entries-left %s %s", ending, prefix), fmt.Sprintf("after the session(s) ended by %s (prefix %s) the datapath still holds %s", ending, prefix, sn), w)
+			if prefix == "update-pdr-new-teid" {
+				// recorded finding (same root cause as C03.R2 update-pdr-key-change-leaves-old-entry): the entry under the PDR's
+				// previous key was never deleted, so it also survives the session
+				res.violate("C05.R4", "bess-update-pdr-key-change-leaves-old-entry", fmt.Sprintf("after an Update PDR moved the PDR to another F-TEID and the session ended by %s, the datapath still holds %s", ending, sn), w)
+			} else {
+				res.violate("C05.R1", fmt.Sprintf("bess-entries-left %s %s", ending, prefix), fmt.Sprintf("after the session(s) ended by %s (prefix %s) the datapath still holds %s", ending, prefix, sn), w)
+			}
 		}
 	}
 	// (b) everything allocated is returned
